@@ -187,6 +187,54 @@ func (eng *Engine) runScans(prop string) []*Oblig {
 					}
 				}
 			}
+		case "params-captured-as-given":
+			// Every function named: a parameter that closures capture keeps the value the caller passed (its cell is written once,
+			// by the spill at entry), so what a handler closure sees under that name is what the constructor was given.
+			for _, fn := range fns {
+				if !eng.fnAllowed(fn, sc.Args) {
+					continue
+				}
+				covered++
+				for _, b := range fn.Blocks {
+					for _, in := range b.Instrs {
+						al, ok := in.(*ssa.Alloc)
+						if !ok || al.Referrers() == nil {
+							continue
+						}
+						isParam := false
+						for _, p := range fn.Params {
+							if p.Name() == al.Comment {
+								isParam = true
+							}
+						}
+						if !isParam {
+							continue
+						}
+						stores := 0
+						for _, r := range *al.Referrers() {
+							if st, ok := r.(*ssa.Store); ok && st.Addr == ssa.Value(al) {
+								stores++
+								if _, fromParam := st.Val.(*ssa.Parameter); !fromParam || st.Block() != fn.Blocks[0] {
+									bad = append(bad, eng.site(st)+" [parameter "+al.Comment+" reassigned]")
+								}
+							}
+						}
+						// closures writing the captured cell
+						for _, r := range *al.Referrers() {
+							if mc, ok := r.(*ssa.MakeClosure); ok {
+								if cf, ok := mc.Fn.(*ssa.Function); ok {
+									for bi, bnd := range mc.Bindings {
+										if bnd == ssa.Value(al) && bi < len(cf.FreeVars) && cellWritten(cf.FreeVars[bi], 0) {
+											bad = append(bad, eng.site(mc)+" [parameter "+al.Comment+" written or leaked by a closure]")
+										}
+									}
+								}
+							}
+						}
+						_ = stores
+					}
+				}
+			}
 		case "method-value-wrapped":
 			// method-value-wrapped METHOD WRAPPER RECVFIELD allowedFn...: every use of METHOD as a value (bound method)
 			// is directly the argument of a call of WRAPPER whose receiver was loaded from field RECVFIELD, inside an allowed function
@@ -1019,4 +1067,44 @@ func copyOfParam(al *ssa.Alloc) bool {
 		}
 	}
 	return stores == 1
+}
+
+
+// cellWritten: some instruction reachable from the address v (a captured variable's cell, or a field/element address inside
+// it) may change the variable: a store through it, or the address itself escaping into a call, a store or a return.
+func cellWritten(v ssa.Value, depth int) bool {
+	if depth > 4 {
+		return true
+	}
+	refs := v.Referrers()
+	if refs == nil {
+		return false
+	}
+	for _, r := range *refs {
+		switch x := r.(type) {
+		case *ssa.UnOp, *ssa.DebugRef:
+		case *ssa.FieldAddr:
+			if cellWritten(x, depth+1) {
+				return true
+			}
+		case *ssa.IndexAddr:
+			if cellWritten(x, depth+1) {
+				return true
+			}
+		case *ssa.Store:
+			return true // stored through, or the address stored somewhere
+		case *ssa.MakeClosure:
+			for i, b := range x.Bindings {
+				if b == v {
+					fn, ok := x.Fn.(*ssa.Function)
+					if !ok || i >= len(fn.FreeVars) || cellWritten(fn.FreeVars[i], depth+1) {
+						return true
+					}
+				}
+			}
+		default:
+			return true
+		}
+	}
+	return false
 }
